@@ -27,7 +27,7 @@ type C08Case struct {
 	// Older: rows written by writer 2 for keys of Rows1 (by index), with OLDER write times and
 	// other values: after the merge writer 1's later INSERT must win column by column, so a
 	// column it did not mention, or set to NULL, reads NULL although an older value exists
-	Older []C08Row `json:"older,omitempty"`
+	Older   []C08Row `json:"older,omitempty"`
 	TxnN    int      `json:"txn_n"`
 	DelN    int      `json:"del_n"` // rows of writer 1 deleted before the vacuum
 	NoSteer bool     `json:"no_steer,omitempty"`
